@@ -36,7 +36,7 @@ PROPS["C14"] = dict(
                  "every solve path reloads the LP (_loadRealLP); the class counter writer_path.unloaded shows whether it was hit"],
     min_nontrivial=dict(quick=15000, thorough=400000),
     stages=[dict(name="main", target="c14", flavour="plain",
-                 quick=dict(cases=3000, maxsize=70), thorough=dict(cases=80000, maxsize=100)),
+                 quick=dict(cases=9000, maxsize=70), thorough=dict(cases=80000, maxsize=100)),
             # the same search under ASan + UBSan (name sets, MPSInput line buffer, file streams)
             dict(name="asan", target="c14", flavour="asan",
                  quick=dict(cases=300, maxsize=60, shards=8), thorough=dict(cases=6000, maxsize=100))],
